@@ -1,6 +1,6 @@
 // Repro for finding rld_truncated_run_panic (C05/C01): drop into a scratch copy of /repo as
 // pdf/tests/verif_rld_repro.rs and run
-//   CARGO_TARGET_DIR=/verif/.cache/native-target cargo test --offline -p pdf --test verif_rld_repro
+//   CARGO_TARGET_DIR=/tmp/rld_target cargo test --offline -p pdf --test verif_rld_repro
 // Pinned tree: both tests FAIL (the call panics: slice index / index out of bounds).
 // With findings/rld_truncated_run_panic_fix.diff applied: both pass.
 use pdf::enc::run_length_decode;
